@@ -38,6 +38,13 @@ class Stop(Exception):
     pass
 
 
+def collides(name, other):
+    """`other` is a different name that a prefix test on catalogue keys confuses with `name`: keys look like
+    '<parent>:parent___<name>___version:<v>', so 'AB' collides with 'A', and 'x' collides with 'x_' (through
+    the separator)"""
+    return other != name and (other + '___version:').startswith(name)
+
+
 # --------------------------------------------------------------------------
 # bots: user code of the generated engine; new_values() is the novelty signal the bot receives
 # --------------------------------------------------------------------------
@@ -119,6 +126,7 @@ class StoreWorld:
         self.nunhandled = 0
         self.phase_no = 0
         self.imager = None
+        self.wind_up = False
 
     # -- reporting ---------------------------------------------------------
     def violate(self, prop, rule, sig, msg, fatal=True):
@@ -133,12 +141,19 @@ class StoreWorld:
         self.op(f'VIOLATION {prop}/{rule} {sig}: {msg}')
         if fatal and prop in self.stop_on and rule not in self.cfg['nonfatal']:
             self.stopped = True
+        elif prop == self.cfg['prop']:
+            # a violation after which the model was re-synchronised: the history goes on to the end of the
+            # current phase (other clauses stay checkable) and ends there (short replays)
+            self.wind_up = True
 
     def op(self, text):
         if len(self.ops) < 400:
             self.ops.append(f'[{self.sim.steps}@{self.sim.now:.2f}] {text}')
 
     def check_stop(self):
+        """called between operations / phases of the history (never while a client is in the middle of something)"""
+        if (self.stopped or self.wind_up) and core.current_thread() is None and not any(c.alive for c in self.clients):
+            raise Stop()
         if self.stopped and core.current_thread() is None:
             raise Stop()
 
@@ -729,6 +744,7 @@ class StoreWorld:
                 self.check_all('phase')
                 self.check_stop()
             self.between()
+            self.check_stop()
             if cfg['enum']:
                 from worlds import store_crash
 
@@ -855,13 +871,13 @@ class StoreWorld:
         if gone != expect or appeared:
             extra = sorted((gone - expect).keys())
             missing = sorted((expect - gone).keys())
-            fields = set()
+            kinds = set()
             for k in extra:
                 n = (k[0], k[1], k[2], k[3], k[5], k[7])
-                for f, a, b in zip(('run', 'target', 'task', 'alg', 'sv', 'val'), n, req):
+                for a, b in zip(n, req):
                     if b is not None and a != b:
-                        fields.add(f + ('_prefix' if isinstance(a, str) and isinstance(b, str) and a.startswith(b) else '_other'))
-            sig = ('extra:' + '+'.join(sorted(fields))) if extra else ('missing' if missing else 'appeared')
+                        kinds.add('prefix_sibling' if isinstance(a, str) and isinstance(b, str) and collides(b, a) else 'unrelated')
+            sig = ('deleted_' + '+'.join(sorted(kinds))) if extra else ('missing' if missing else 'appeared')
             self.violate('C08', 'remove_not_exact', sig,
                          f'{text} must delete exactly {sorted(expect)}; also deleted {extra}; not deleted {missing}', fatal=False)
         # the model follows what really happened so that later oracles stay meaningful
@@ -933,7 +949,7 @@ class StoreWorld:
             if got not in {x['algver'] for x in mine}:
                 other = [x for x in rows if (x['run'], x['target'], x['task']) == (run, target, task) and x['algver'] == got
                          and x['alg'] != aspec.name]
-                sig = 'took_version_of_' + ('prefix_sibling' if any(o['alg'].startswith(aspec.name) for o in other) else 'other')
+                sig = 'prefix_sibling' if any(collides(aspec.name, o['alg']) for o in other) else 'other'
                 self.violate('C08', 'reset_not_exact', sig,
                              f'reset({run},{target},{task},{aspec.name}): entries of exactly that name have versions '
                              f'{sorted({sm.vstr(x["algver"]) for x in mine})}, algorithm was set to {sm.vstr(got)} '
@@ -986,9 +1002,11 @@ class StoreWorld:
                 if want is not None:
                     self.probes['trace_with_entries'] += 1
                 if have != want:
-                    sib = [x for x in rows if x['task'] == task and x['alg'] != alg and x['alg'].startswith(alg)
+                    sib = [x for x in rows if x['task'] == task and collides(alg, x['alg'])
                            and x['target'] in (tn, ALL) and x['run'] == have]
-                    sig = 'reports_prefix_sibling' if sib else ('missing' if have is None else 'wrong_run')
+                    tids = [i for i, n in cat.by_id['task'].items() if sm.parse_name(n)[1] == task]
+                    registered = [p[1] for p in (sm.parse_name(n) for n in cat.t['alg']) if p[0] in tids and collides(alg, p[1])]
+                    sig = 'prefix_sibling' if (sib or registered) else ('missing' if have is None else 'wrong_run')
                     self.violate('C08', 'trace_not_exact', sig,
                                  f'trace({names})[{tn}][{tan}] = {have}; entries of exactly {tan} at its newest version '
                                  f'{sm.vstr(newest)} have latest run {want}' + (f'; {have} is the latest run of {sorted({x["alg"] for x in sib})}' if sib else ''),
